@@ -1,4 +1,5 @@
 pub mod asm;
 pub mod c02;
+pub mod c04;
 pub mod c13;
 pub mod valsim;
